@@ -76,16 +76,20 @@ impl<'a> GeneratorState<'a> {
             ExprType::Immediate(l) => {
                 match right {
                     ExprType::Immediate(r) => {
-                        match op {
-                            Operation::Add(_) => return Ok(ExprType::Immediate(l + r)),
-                            Operation::Sub(_) => return Ok(ExprType::Immediate(l - r)),
-                            Operation::And(_) => return Ok(ExprType::Immediate(l & r)),
-                            Operation::Or(_) => return Ok(ExprType::Immediate(l | r)),
-                            Operation::Xor(_) => return Ok(ExprType::Immediate(l ^ r)),
-                            Operation::Mul(_) => return Ok(ExprType::Immediate(l * r)),
-                            Operation::Div(_) => return Ok(ExprType::Immediate(l / r)),
+                        let folded = match op {
+                            Operation::Add(_) => l.checked_add(*r),
+                            Operation::Sub(_) => l.checked_sub(*r),
+                            Operation::And(_) => Some(l & r),
+                            Operation::Or(_) => Some(l | r),
+                            Operation::Xor(_) => Some(l ^ r),
+                            Operation::Mul(_) => l.checked_mul(*r),
+                            Operation::Div(_) => l.checked_div(*r),
                             _ => { return Err(self.compiler_state.compiler_error("Arithmetics is partially implemented", pos)); },
-                        } 
+                        };
+                        return match folded {
+                            Some(v) => Ok(ExprType::Immediate(v)),
+                            None => Err(self.compiler_state.syntax_error("Constant expression overflow or division by zero", pos)),
+                        };
                     },
                     _ => {
                         if acc_in_use { self.sasm(PHA)?; }
@@ -325,6 +329,9 @@ impl<'a> GeneratorState<'a> {
             ExprType::Immediate(l) => {
                 match right {
                     ExprType::Immediate(r) => {
+                        if !(0..32).contains(r) {
+                            return Err(self.compiler_state.syntax_error("Bad shift count", pos));
+                        }
                         match op {
                             Operation::Brs(_) => return Ok(ExprType::Immediate(l >> r)),
                             Operation::Bls(_) => return Ok(ExprType::Immediate(l << r)),
